@@ -26,7 +26,7 @@ var (
 	// by a prefix; words that read like other types
 	strPool      = []string{"", "a", "b", "x y", "ünï", "zz", "0", "q\"uo\\te\nline", "a", strings.Repeat("long-", 700), "a\n", "\n", " a", "a ", "A", "ab", "\t", "null", "true"}
 	rawBytesPool = []string{"\xff\xfe\x80", "\xc3", "\x00", "a\xffb", "\x00\x00", "\xed\xa0\x80", "ok\xc3"}
-	keyPool      = []string{"k1", "k2", "k3", "key four", "K1", "k.1/é"}
+	keyPool      = []string{"k1", "k2", "k3", "key four", "K1", "k.1/é", "", "k1 ", "k", "k11"}
 	int32Pool    = []int64{0, 1, -1, 42, math.MaxInt32, math.MinInt32}
 	int64Pool    = []int64{0, 1, -1, 4242, math.MaxInt64, math.MinInt64}
 	u32Pool      = []uint64{0, 1, 77, math.MaxUint32}
@@ -35,7 +35,7 @@ var (
 	u64Struct = []uint64{0, 1, 99, math.MaxInt64, math.MaxInt64 + 1, math.MaxUint64}
 	f32Pool   = []float64{0, 1.5, -2.25, float64(float32(3.4e38)), float64(float32(1e-30)), float64(float32(0.1)), float64(float32(1) / 3), math.Inf(1), math.Copysign(0, -1)}
 	f64Pool   = []float64{0, 1.5, -2.25, 1e300, 2.5e-300, 0.1, 1.0 / 3, math.Inf(-1), math.Copysign(0, -1), math.MaxFloat64, math.SmallestNonzeroFloat64}
-	durPool   = []int64{0, 1, -1, int64(90 * time.Minute), math.MaxInt64}
+	durPool   = []int64{0, 1, -1, int64(90 * time.Minute), math.MaxInt64, 2, int64(90*time.Minute) + 1, math.MinInt64, int64(time.Millisecond), 999}
 	timePool  = []time.Time{
 		{},
 		time.Date(9999, 12, 31, 23, 59, 59, 999999999, time.UTC),
@@ -43,6 +43,11 @@ var (
 		time.Date(2022, 3, 4, 5, 6, 7, 123456789, time.UTC),
 		time.Date(1999, 12, 31, 23, 59, 59, 0, time.FixedZone("X", 3600*5+1800)),
 		time.Date(2100, 1, 1, 0, 0, 0, 1, time.FixedZone("Y", -3600*8)),
+		// near-duplicates: one nanosecond apart; the same instant in another zone; a leap day; before 1970
+		time.Date(2022, 3, 4, 5, 6, 7, 123456790, time.UTC),
+		time.Date(2022, 3, 4, 10, 36, 7, 123456789, time.FixedZone("X", 3600*5+1800)),
+		time.Date(2024, 2, 29, 23, 59, 59, 999999999, time.UTC),
+		time.Date(1901, 12, 13, 20, 45, 52, 0, time.UTC),
 	}
 )
 
@@ -170,7 +175,8 @@ func sizeDraw(t *rapid.T, depth int, label string) int {
 	}
 	n := rapid.IntRange(-1, hi).Draw(t, label)
 	if n == hi && depth == 0 && coin(t, 1, 8, label+"/long") {
-		n = 9 // an occasional long top-level collection (capacity / length bookkeeping)
+		// an occasional long top-level collection (capacity / length bookkeeping, growth boundaries)
+		n = []int{9, 16, 17, 33}[rapid.IntRange(0, 3).Draw(t, label+"/longn")]
 	}
 	return n
 }
